@@ -204,3 +204,178 @@ def NONE_GID():
 def copy_msg(m):
     from mirsym.values import copy_val
     return copy_val(m)
+
+
+# ---------------------------------------------------------------------------------------------------------------------------
+# snapshot / rollback of the memory backend (C09 memory half, C08 routing index after rollback)
+
+def gb(g):
+    """MlsCodec-serialised group id bytes as a token derived from the group token"""
+    return Tok('gb', g.k)
+
+
+def snapshot_models():
+    import re as _re
+
+    def serialize(eng, st, call):
+        v = M.deref_all(eng, st, call.args[0])
+        if isinstance(v, Tok) and v.pool == 'g':
+            return [(st, M.OK(gb(v)))]
+        return None
+
+    def inner(eng, st, call):          # GroupId::inner(&self) -> &openmls GroupId : same token
+        return [(st, call.args[0])]
+
+    def to_string(eng, st, call):
+        from mirsym.values import copy_val
+        return [(st, copy_val(M.deref_all(eng, st, call.args[0])))]
+
+    return [(_re.compile(r'MlsCodec::serialize::<'), serialize), (_re.compile(r'GroupId::inner$'), inner), (_re.compile(r'^<str as ToString>::to_string$'), to_string)]
+
+
+def mls_store(entries):
+    return Agg('struct', 'MlsStore', None, [MapV(entries, 'HashMap')])
+
+
+def dump_store(eng, st, sref):
+    """canonical observable content of the store: {cache name: sorted list of (key repr, value repr)}"""
+    from mirsym.values import vrepr
+    inn = inner_of(eng, st, sref)
+    out = {}
+    for n, v in zip(INNER_FIELDS, inn.fields):
+        mp = v.fields[0] if isinstance(v, Agg) and v.ty == 'MlsStore' else v
+        if isinstance(mp, MapV):
+            out[n] = sorted((owner_of(k, x) + '|' + vrepr(k), srepr(x)) for k, x in mp.entries)
+    s = eng.read(st, sref.loc, sref.path)
+    snaps = s.fields[2].fields[0]
+    out['#snapshots'] = sorted(vrepr(k) for k, x in snaps.entries)
+    return out
+
+
+def owner_of(k, x=None):
+    """'G0' / 'G1' ...: the group a cache entry belongs to (from its key, or from the record for the nostr-id index)"""
+    t = k.fields[0] if isinstance(k, Agg) and k.fields else k
+    if isinstance(t, Tok) and t.pool in ('g', 'gb'):
+        return f'G{t.k}'
+    if isinstance(x, Agg) and x.names and 'mls_group_id' in x.names:
+        g = x.fields[x.names.index('mls_group_id')]
+        if isinstance(g, Tok):
+            return f'G{g.k}'
+    return 'G?'
+
+
+def srepr(x):
+    from mirsym.values import vrepr
+    if isinstance(x, Agg):
+        return x.kind + '(' + ','.join(srepr(f) for f in x.fields) + ')'
+    if isinstance(x, (MapV,)):
+        return 'Map{' + ','.join(sorted(vrepr(k) + ':' + srepr(v) for k, v in x.entries)) + '}'
+    if isinstance(x, SeqV):
+        return 'Seq[' + ','.join(srepr(v) for v in x.items) + ']'
+    return vrepr(x)
+
+
+@guard
+def memory_rollback(tier, oid='O4', prefix='O4'):
+    """memory backend: create snapshot; mutate; rollback == frame condition + routing index consistency"""
+    ob = Ob(oid, 'memory backend create_group_snapshot / (mutations) / rollback_group_to_snapshot: afterwards the record, relays of the group, exporter secrets and MLS rows equal the snapshot-time values, '
+                 'the Nostr-id index holds exactly the ids of the current records (no stale entry, restored id resolvable), everything of the other group, all messages and other snapshots are untouched, the snapshot is consumed',
+            crates=CRATES, models=snapshot_models(), loop_bound=12, assume_ok=['SystemTime::duration_since'],
+            inline={'create_group_scoped_snapshot', 'restore_group_scoped_snapshot'}, max_paths=400000)
+    f_create = ob.prog.find(MEM, 'create_group_snapshot')
+    f_roll = ob.prog.find(MEM, 'rollback_group_to_snapshot')
+    f_save = ob.prog.find(MEM, 'groups::save_group')
+    f_rel = ob.prog.find(MEM, 'release_group_snapshot')
+    G, H = Tok('g', 0), Tok('g', 1)
+    N = [Tok('n', k) for k in range(3)]
+    total = 0
+    scenarios = 0
+    # mutations between snapshot and rollback: which nostr id the group is re-saved with (None = not re-saved), whether the other group is re-saved too
+    for g_new_nid in (None, N[0], N[2]):
+        for other_changes in (False, True):
+            for extra_snapshot in (False, True):
+                scenarios += 1
+                st = State()
+                g0, h0 = group('g0', G, N[0]), group('h0', H, N[1])
+                m0 = message('m0', G)
+                caches = {
+                    'mls_group_data': mls_store([[Agg('tuple', None, None, [gb(G), Tok('dt', 0)]), Opaque('mlsG', 'Vec<u8>')], [Agg('tuple', None, None, [gb(H), Tok('dt', 0)]), Opaque('mlsH', 'Vec<u8>')]]),
+                    'mls_own_leaf_nodes': mls_store([[gb(G), SeqV([Opaque('leafG', 'Vec<u8>')], 'Vec')]]),
+                    'mls_proposals': mls_store([[Agg('tuple', None, None, [gb(H), Tok('pr', 0)]), Opaque('propH', 'Vec<u8>')]]),
+                    'mls_epoch_key_pairs': mls_store([[Agg('tuple', None, None, [gb(G), Tok('ep', 0), z3.BitVecVal(0, 32)]), Opaque('kpG', 'Vec<u8>')]]),
+                    'groups_cache': MapV([[G, g0], [H, h0]], 'LruCache'),
+                    'groups_by_nostr_id_cache': MapV([[N[0], copy_msg(g0)], [N[1], copy_msg(h0)]], 'LruCache'),
+                    'group_relays_cache': MapV([[G, MapV([[Opaque('relayG', 'GroupRelay'), M.UNIT()]], 'BTreeSet', True)], [H, MapV([[Opaque('relayH', 'GroupRelay'), M.UNIT()]], 'BTreeSet', True)]], 'LruCache'),
+                    'messages_by_group_cache': MapV([[G, MapV([[mfield(m0, 'id'), m0]], 'HashMap')]], 'LruCache'),
+                    'messages_cache': MapV([[mfield(m0, 'id'), copy_msg(m0)]], 'LruCache'),
+                    'group_exporter_secrets_cache': MapV([[Agg('tuple', None, None, [G, z3.BitVecVal(1, 64)]), Opaque('secG1', 'GroupExporterSecret')],
+                                                          [Agg('tuple', None, None, [H, z3.BitVecVal(1, 64)]), Opaque('secH1', 'GroupExporterSecret')]], 'LruCache'),
+                }
+                sref = storage(st, caches)
+                name = Ref(st.temp(StrV(text='s')), ())
+                gref = Ref(st.temp(G), ())
+                ps = [p for p in ob.explore(f_create, [sref, gref, name], st) if p.kind == 'return']
+                if not ob.require(len(ps) == 1 and vname(ps[0].ret) == 'Ok', f'{prefix}/memory-create-snapshot', 'create_group_snapshot does not succeed deterministically'):
+                    continue
+                st = ps[0].st
+                at_snapshot = dump_store(ob.eng, st, sref)
+                # taking a snapshot changes no live state
+                before_live = {k: v for k, v in at_snapshot.items() if k != '#snapshots'}
+                if extra_snapshot:
+                    n2 = Ref(st.temp(StrV(text='other')), ())
+                    st = [p for p in ob.explore(f_create, [sref, gref, n2], st) if p.kind == 'return'][0].st
+                # mutations through the real save_group / direct writes of dependent caches
+                if g_new_nid is not None:
+                    g1 = group('g1', G, g_new_nid)
+                    rs = [p for p in ob.explore(f_save, [sref, g1], st) if p.kind == 'return' and vname(p.ret) == 'Ok']
+                    if not rs:
+                        continue
+                    st = rs[0].st
+                    inn = inner_of(ob.eng, st, sref)
+                    inn.fields[INNER_FIELDS.index('group_relays_cache')].entries[0][1] = MapV([[Opaque('relayG2', 'GroupRelay'), M.UNIT()]], 'BTreeSet', True)
+                    inn.fields[INNER_FIELDS.index('group_exporter_secrets_cache')].entries.append([Agg('tuple', None, None, [G, z3.BitVecVal(2, 64)]), Opaque('secG2', 'GroupExporterSecret')])
+                    inn.fields[INNER_FIELDS.index('mls_group_data')].fields[0].entries[0][1] = Opaque('mlsG2', 'Vec<u8>')
+                if other_changes:
+                    h1 = group('h1', H, N[1])
+                    rs = [p for p in ob.explore(f_save, [sref, h1], st) if p.kind == 'return' and vname(p.ret) == 'Ok']
+                    if rs:
+                        st = rs[0].st
+                pre_rollback = dump_store(ob.eng, st, sref)
+                rs = ob.explore(f_roll, [sref, gref, name], st)
+                for p in rs:
+                    total += 1
+                    if p.kind == 'panic':
+                        ob.require(False, f'{prefix}/memory-rollback-panic', f'rollback panics: {p.msg}', p); continue
+                    if not ob.require(vname(p.ret) == 'Ok', f'{prefix}/memory-rollback-fails', 'rollback of an existing snapshot fails', p):
+                        continue
+                    after = dump_store(ob.eng, p.st, sref)
+                    tag = f'(group re-saved with nostr id {g_new_nid}, other group changed={other_changes})'
+                    # the group's own data == snapshot time
+                    for cname in ('groups_cache', 'group_relays_cache', 'group_exporter_secrets_cache', 'mls_group_data', 'mls_own_leaf_nodes', 'mls_proposals', 'mls_epoch_key_pairs'):
+                        mine = lambda d: [e for e in d[cname] if e[0].startswith('G0|')]
+                        theirs = lambda d: [e for e in d[cname] if not e[0].startswith('G0|')]
+                        ob.require(mine(after) == mine(at_snapshot), f'{prefix}/memory-not-restored/{cname}', f'after rollback {cname} of the group differs from its snapshot-time content {tag}', p,
+                                   {'after': mine(after), 'snapshot': mine(at_snapshot)})
+                        ob.require(theirs(after) == theirs(pre_rollback), f'{prefix}/memory-other-group-touched/{cname}', f'rollback changed {cname} entries of ANOTHER group {tag}', p)
+                    for cname in ('messages_by_group_cache', 'messages_cache', 'welcomes_cache', 'processed_welcomes_cache', 'processed_messages_cache', 'mls_key_packages', 'mls_signature_keys'):
+                        if cname in after:
+                            ob.require(after[cname] == pre_rollback[cname], f'{prefix}/memory-destroyed/{cname}', f'rollback changed {cname} {tag}', p)
+                    # routing index: exactly {record.nostr_group_id -> record} for the current records
+                    gc = cache(ob.eng, p.st, sref, 'groups_cache')
+                    nc = cache(ob.eng, p.st, sref, 'groups_by_nostr_id_cache')
+                    want = sorted((repr(mfield_g(v, 'nostr_group_id')), srepr(v)) for k, v in gc.entries)
+                    got = sorted((repr(k), srepr(v)) for k, v in nc.entries)
+                    ob.require(want == got, f'{prefix}/memory-nostr-index-stale', f'after rollback the Nostr-id index does not mirror the group records: a rotated-away id still resolves (or the restored id does not) {tag}',
+                               p, {'index': [g_[0] for g_ in got], 'records': [w_[0] for w_ in want]})
+                    consumed = "tuple(g0, 's')"
+                    ob.require((consumed not in after['#snapshots']) and (after['#snapshots'] == [x for x in pre_rollback['#snapshots'] if x != consumed]), f'{prefix}/memory-snapshots',
+                               f'snapshot bookkeeping after rollback: {after["#snapshots"]} (before {pre_rollback["#snapshots"]})', p)
+    ob.r.bounds = {'groups': 2, 'nostr ids': 'pool of 3', 'scenarios': scenarios, 'records': 'symbolic payloads; one message, relay set, 1-2 exporter secrets, MLS rows per table'}
+    ob.r.assumptions += ASSUMPTIONS + ['MlsCodec::serialize(group id) is injective (token model)']
+    ob.r.vacuity.append(f'{scenarios} scenarios, {total} rollback paths')
+    ob.require(total >= scenarios // 2, f'{prefix}/vacuity', f'rollback paths {total}')
+    return ob.done(cases=total)
+
+
+def mfield_g(g, name):
+    return g.fields[(g.names or GROUP_FIELDS).index(name)]
